@@ -57,6 +57,10 @@ func MatchMain(eng *Engine) (bind inputrc.Bind, command func(), prefix bool) {
 	// to the local keymap matching, no keymap should be empty.
 	binds := eng.getContextBinds(true)
 	if len(binds) == 0 {
+		// Nothing can be matched: drop the key, since the caller
+		// would otherwise ask to match the same key forever.
+		core.PopForce(eng.keys)
+
 		return bind, command, prefix
 	}
 
